@@ -472,7 +472,13 @@ def run_check(plugin, tier, seed, replay=None):
             elif 1 in cs:
                 corr_broken.append({"what": "model does not predict the implementation (step_ok false)", "step": stepno, "case": c, "result": r})
             for x in known:
-                known_lines.append("KNOWN-FINDING: property=%s %s" % (prop, plugin.CODES.get(x, "known finding %d" % x)))
+                # a failing monitor inside a region is a known finding only if known_findings.json lists it;
+                # anything else is a violation
+                listed = [f for f in load_known(prop) if int(f.get("code", -1)) == x]
+                if listed:
+                    known_lines.append("KNOWN-FINDING: property=%s %s" % (prop, listed[0].get("what", plugin.CODES.get(x, "finding %d" % x))))
+                else:
+                    monitor_fail.append({"codes": [x], "step": stepno, "what": plugin.CODES.get(x, "monitor %d" % x) + " (region code not listed in known_findings.json)", "case": c, "result": r})
 
     # 3. verdict
     exit_code = 0
